@@ -7,7 +7,7 @@ from fractions import Fraction
 import symtorch
 from symtorch import poly as P, tensor as T, autograd as AG
 from symtorch.poly import Poly
-from vlib import core, smt
+from vlib import core, smt, adjcheck
 from harness import dwtlib as D
 
 WAVES_Q = ['haar', 'db2', 'db3', 'bior2.4', 'bior3.1', 'sym4']
@@ -115,7 +115,6 @@ def _leaf_shapes(cfg):
 def run_config(cfg):
     res = core.Result(cfg)
     core.begin()
-    rt = symtorch.real_torch()
     L = D.filt_len(cfg['wave'])
     try:
         shapes = _leaf_shapes(cfg)
@@ -124,156 +123,17 @@ def run_config(cfg):
     nl = len(shapes)
     sub = cfg['sub'] if cfg['sub'] is not None else [1] * nl
     none = [0] + list(cfg.get('none') or [0] * (nl - 1)) if cfg['dir'] == 'inv' else [0]
-    facts0 = dict(dir=cfg['dir'], dim=cfg['dim'], mode=cfg['mode'], wave=cfg['wave'])
-    t0 = time.time()
-    with symtorch.symbolic():
-        spw = symtorch.sym()
-        leaves = []; lids = []
-        for k, s in enumerate(shapes):
-            if none[k]:
-                leaves.append(None); lids.append(None); continue
-            t, i = core.symin(s, name='in%d' % k, requires_grad=bool(sub[k]))
-            leaves.append(t); lids.append(i)
-        so = core.outcome(lambda: _run(spw, cfg, leaves))
-        bo = None
-        if so[0] == 'ok':
-            outs = so[1]
-            vals = [AG.resolve(o) for o in outs]
-            cots = []; cids = []
-            for o in outs:
-                g, gi = core.symin(tuple(o.shape), kind='cot', name='g')
-                cots.append(g); cids.append(gi)
-            bo = core.outcome(lambda: AG.backprop(outs, cots))
-    res.symexec_s = time.time() - t0
-    res.funcs = sorted(T.STATE.funcs_entered)
-    for o in (so, bo):
-        if o is not None and o[0] == 'unsupported':
-            res.status = 'inconclusive'; res.notes.append('symbolic engine: ' + o[1]); return res
-    # real run
-    rng = np.random.default_rng(11)
-    rleaves = [None if none[k] else rt.tensor(rng.uniform(-1, 1, size=s), requires_grad=bool(sub[k])) for k, s in enumerate(shapes)]
-    ro = core.outcome(lambda: _run(symtorch.real(), cfg, rleaves))
-    if not D.same_outcome(res, so, ro):
-        return res
-    if so[0] == 'raise':
-        res.status = 'skipped'; res.notes.append('transform raises %s: outside C05' % so[1]); return res
-    gv = [rng.uniform(-1, 1, size=tuple(o.shape)) for o in outs]
-    want = [l for k, l in enumerate(rleaves) if l is not None and sub[k]]
-    rgo = core.outcome(lambda: rt.autograd.grad(ro[1], want, [rt.tensor(g) for g in gv], allow_unused=True))
-    if not D.same_outcome(res, bo, rgo):
-        return res
-    if bo[0] == 'raise':
-        res.status = 'violation'
-        res.violations.append(dict(what='backward raises %s: %s' % (bo[1], bo[2][:100]), facts=dict(facts0, interior=False, nograd=False, raises=True), replay=dict(kind='raise'), reproduced=True)); return res
-    acc = bo[1]
-    # engine validation: gradient at the sample cotangent equals real autograd
-    env = P.AtomEnv()
-    for gi, g in zip(cids, gv):
-        for a, v in zip(gi.reshape(-1), g.reshape(-1)):
-            env[int(a)] = float(v)
-    dev = 0.0
-    wi = 0
-    for k in range(nl):
-        if none[k] or not sub[k]:
-            continue
-        rg = rgo[1][wi]; wi += 1
-        ga = AG.grad_of(leaves[k], acc)
-        sv = np.array([0.0 if p is None else p.evalf(env) for p in ga.reshape(-1)])
-        rv = np.zeros(sv.shape) if rg is None else rg.detach().numpy().reshape(-1)
-        dev = max(dev, float(np.abs(sv - rv).max()))
-        if (rg is None) != all(p is None for p in ga.reshape(-1)):
-            res.status = 'error'; res.trace = 'gradient presence differs between tape model and real autograd for leaf %d' % k; return res
-    res.validated = dev
-    if dev > 1e-9:
-        res.status = 'error'; res.trace = 'tape model deviates from real autograd by %g' % dev; return res
-    # ---- oracle: J^T g from the forward's own coefficient table --------------------------------
-    gpolys = [np.array([Poly.var(int(a)) for a in gi.reshape(-1)], dtype=object) for gi in cids]
-    Jt = {}   # leaf atom -> list of (coef, gpoly)
-    for v, gp in zip(vals, gpolys):
-        for p, g in zip(v.reshape(-1), gp):
-            if not p.is_linear() or p.const_value():
-                res.status = 'inconclusive'; res.notes.append('forward output is not a homogeneous linear form'); return res
-            for kx, c in p.t.items():
-                Jt.setdefault(kx[0], []).append((c, g))
-    st = smt.Stats(); solver = smt.Solver(stats=st)
-    tau = Fraction(1, 10 ** 9) * max(1, L)
+    facts0 = dict(dir=cfg['dir'], dim=cfg['dim'], mode=cfg['mode'], wave=cfg['wave'], odd_level=bool(cfg['dir'] == 'fwd' and _odd_level(cfg)),
+                  highpass_only=bool(cfg['dir'] == 'inv' and not sub[0]))
     bw = _border_width(cfg)
-    sats = []
-    first = None
-    for k in range(nl):
-        if none[k] or not sub[k]:
-            continue
-        ga = AG.grad_of(leaves[k], acc)
-        if any(p is not None for p in ga.reshape(-1)):
-            ga = np.array([P.ZERO if p is None else p for p in ga.reshape(-1)], dtype=object).reshape(ga.shape)
-        shp = ga.shape
-        for idx in np.ndindex(*shp):
-            atom = int(lids[k][idx])
-            true = P.lincomb(Jt.get(atom, []))
-            got = ga[idx]
-            sp = idx[2:] if cfg['dir'] == 'fwd' or k == 0 else idx[-cfg['dim']:]
-            dims = shp[-cfg['dim']:]
-            interior = all(bw <= i < n - bw for i, n in zip(sp[-cfg['dim']:], dims))
-            if got is None:
-                if not true.is_zero():
-                    sats.append((k, idx, None, interior, 'nograd'))
-                    break
-                continue
-            d = got - true
-            if first is None:
-                first = (d, atom)
-            if not d.is_zero():
-                res.nontrivial = True
-            v, model = solver.decide_amplified(d, tau, label='leaf%d%s' % (k, list(idx)))
-            if v == 'sat':
-                if not any(s[0] == k and s[3] == interior for s in sats):
-                    sats.append((k, idx, model, interior, 'value'))
-            elif v != 'unsat':
-                res.status = 'inconclusive'; res.notes.append('solver answered %s' % v)
-            if sum(1 for s in sats if s[3]) >= 2 or len(sats) >= 4:
-                break
-    if first is not None and cids and cids[0].size:
-        if not D.canary_ok(res, first[0], cids[0].reshape(-1)[0], tau):
-            return res
-    res.stats = st
-    for k, idx, model, interior, kind in sats:
-        facts = dict(facts0, leaf=('x' if cfg['dir'] == 'fwd' else ('yl' if k == 0 else 'yh')), interior=bool(interior), nograd=kind == 'nograd',
-                     odd_level=bool(cfg['dir'] == 'fwd' and _odd_level(cfg)), highpass_only=bool(cfg['dir'] == 'inv' and not sub[0]))
-        if kind == 'nograd':
-            rep = _replay(cfg, shapes, sub, none, None, k, idx, float(tau))
-            res.violations.append(dict(what='leaf %d requires grad and influences the output but receives no gradient' % k, facts=facts,
-                                       replay=dict(kind='nograd', leaf=k, idx=list(idx)), reproduced=rep['reproduced']))
-        else:
-            gvv = [core.model_array(model, gi) for gi in cids]
-            rep = _replay(cfg, shapes, sub, none, gvv, k, idx, float(tau))
-            res.violations.append(dict(what='gradient of leaf %d at %s differs from J^T g by %.3g (%s)' % (k, list(idx), rep['diff'], 'interior' if interior else 'border region'),
-                                       facts=facts, replay=dict(kind='grad', g=[g.tolist() for g in gvv], leaf=k, idx=list(idx), tau=float(tau)), reproduced=rep['reproduced']))
-    if res.violations:
-        res.status = 'violation'
+    dim = cfg['dim']
+
+    def interior(k, idx, shape):
+        return all(bw <= i < n - bw for i, n in zip(idx[-dim:], shape[-dim:]))
+    names = ['x'] if cfg['dir'] == 'fwd' else ['yl'] + ['yh'] * (nl - 1)
+    adjcheck.adjoint_check(res, cfg, facts0, lambda pw, leaves: _run(pw, cfg, leaves), shapes, sub, none, Fraction(1, 10 ** 9) * max(1, L),
+                           interior_fn=interior, leaf_names=names)
     return res
-
-
-def _replay(cfg, shapes, sub, none, gv, k, idx, tau):
-    """true VJP entry by definition: <g, T(e_idx)> on the real library vs the real autograd gradient"""
-    rt = symtorch.real_torch()
-    leaves = [None if none[j] else rt.zeros(*s, dtype=rt.float64, requires_grad=bool(sub[j])) for j, s in enumerate(shapes)]
-    outs = _run(symtorch.real(), cfg, leaves)
-    if gv is None:
-        gv = [np.ones(tuple(o.shape)) for o in outs]
-    want = [l for j, l in enumerate(leaves) if l is not None and sub[j]]
-    grads = rt.autograd.grad(outs, want, [rt.tensor(g) for g in gv], allow_unused=True)
-    pos = [j for j in range(len(shapes)) if not none[j] and sub[j]].index(k)
-    g = grads[pos]
-    e = [None if none[j] else np.zeros(s) for j, s in enumerate(shapes)]
-    e[k][tuple(idx)] = 1.0
-    Te = _run(symtorch.real(), cfg, [None if a is None else rt.tensor(a) for a in e])
-    true = sum(float((rt.tensor(gg) * t).sum()) for gg, t in zip(gv, Te))
-    if g is None:
-        # no gradient although the output depends on the element
-        dep = max(float(t.abs().max()) for t in Te)
-        return dict(reproduced=dep > 1e-12, diff=abs(true))
-    diff = abs(float(g[tuple(idx)]) - true)
-    return dict(reproduced=diff > tau / 2, diff=diff)
 
 
 def replay(payload):
@@ -286,5 +146,5 @@ def replay(payload):
     if rp['kind'] == 'raise':
         return dict(reproduced=True)
     gv = [np.array(g) for g in rp['g']] if rp['kind'] == 'grad' else None
-    r = _replay(cfg, shapes, sub, none, gv, rp['leaf'], tuple(rp['idx']), rp.get('tau', 1e-9))
+    r = adjcheck.replay_adjoint(lambda pw, leaves: _run(pw, cfg, leaves), shapes, sub, none, gv, rp['leaf'], tuple(rp['idx']), rp.get('tau', 1e-9))
     return dict(reproduced=r['reproduced'], detail=r)
